@@ -9,6 +9,8 @@ TB = ('Trusted: Coq 8.16.1 kernel; extraction (ExtrOcamlBasic, ExtrOcamlString) 
       'repository reader for Generated.v; the Python correspondence harness; Python/Lark/pickle/OS semantics are modelled, '
       'not verified. No axioms: every property theorem is "Closed under the global context" (checked each run).')
 
+DIFF = ' Tie to code: the extracted model and the implementation run the same generated sessions each run (differential correspondence) next to an independent oracle.'
+
 CHECKS = {
  'C01': dict(
     text='Theorem vcd_fidelity (Coq, all documents/layouts, no bound): for every well-formed VCD document (header blocks in any order, '
@@ -16,23 +18,109 @@ CHECKS = {
          'and every whitespace layout, the parser model yields the declared names/scopes in order, the #-timestamps as indices, each signal column = '
          'last value assigned to its id code at or before each timestamp (x before any), declared widths; value_at_index: integer iff binary. '
          'Tie to code: extracted parser vs Wal.load observations on generated documents + independent denotation oracle.',
-    design='DESIGN.md §6 C01',
     technique='Coq proof (parser inverts renderer, refinement to document reading) + differential correspondence + denotation oracle'),
- 'C18': dict(
-    text='Theorems (Coq): time cell with 0..9 fractional digits -> integer ns exactly, for numerals of any length (csv_time); decimal value inverts the numeral printer. '
-         'PARTIAL: the table walk (column order, time column position, header normalisation) is decided by the correspondence check '
-         '(extracted csv_parse vs Wal.load on generated tables) and the independent denotation oracle, not by a theorem.',
-    design='DESIGN.md §6 C18',
-    technique='Coq proof of the ns conversion + differential correspondence (extracted CSV parser) + denotation oracle'),
+ 'C02': dict(
+    text='Theorems (Coq, all traces/indices/amounts): Trace.step moves by exactly n iff 0 <= index+n <= max and otherwise changes nothing and reports the trace; '
+         'container step over all/named traces; invariant 0 <= index <= max over every operation sequence (nav_invariant); INDEX/TS observe the position; '
+         'the amount accepted by (step) in every argument form.' + DIFF,
+    technique='Coq proof (invariant by induction over operation sequences) + differential correspondence + position oracle'),
+ 'C03': dict(
+    text='Theorems (Coq): e@k evaluates e with every trace at index+k and, in range, puts back exactly the saved positions (restore_puts_back) whatever e does to them; '
+         'out of range yields #f / error without moving; the whole evaluator leaves the index stack balanced (T-bal, induction over the evaluator). '
+         'PARTIAL: the composition law (e@j)@k = e@(j+k) is decided by the differential check, not by a theorem.' + DIFF,
+    technique='Coq proof (save/restore refinement, balanced-context induction) + differential correspondence + offset oracle'),
+ 'C04': dict(
+    text='Theorems (Coq, any condition behaviour whose truth depends on the index only, any trace, any start index): (find c) and (find/g c) on one trace return exactly '
+         'filter P [i..m] ascending without duplicates and restore the index; (whenever c body) refines a for-loop over i..m that evaluates the body exactly once at each '
+         'hit and returns the last body value; with ANY number of traces whenever and find/g leave every trace index, the set of traces and their extent as before '
+         '(position neutrality). count = length of find by C15/C14. PARTIAL: purity of the trace-reading fragment and the two-trace lock-step results are decided by '
+         'the differential check.' + DIFF,
+    technique='Coq proof (loop refinement by induction on fuel, restore invariant) + differential correspondence + brute-force scan oracle'),
+ 'C05': dict(
+    text='Theorems (Coq): ~s / #s / alias / scoped and grouped references denote the concatenated full name; a missing signal raises; in-scope, in-group, in-scopes, all-scopes '
+         'run the body with scope/group set and restore both on completion (also through the balanced-context theorem for the whole evaluator). '
+         'PARTIAL: that the regular expression in `groups` computes the prefix/suffix relation is decided by the differential check against a brute-force oracle.' + DIFF,
+    technique='Coq proof (name denotation lemmas, restore lemmas) + differential correspondence + brute-force group oracle'),
+ 'C06': dict(
+    text='Theorems (Coq, all frame heaps): lookup finds the innermost binding and skips non-binding frames; define/set/let/fn obey the environment model; a closure call '
+         'runs in a frame whose parent is the captured one (lexical, not dynamic) and restores the caller frame; let is sequential; error cases. '
+         'Left-to-right single evaluation is the definition of eval_args and is tied to the code by the differential check against a reference interpreter.' + DIFF,
+    technique='Coq proof (environment-model laws) + differential correspondence + reference interpreter oracle'),
+ 'C07': dict(
+    text='Theorems (Coq): whenever the static scope stack describes the dynamic frame chain (chain_matches), a symbol resolved to distance k reads and writes exactly the binding '
+         'dynamic lookup finds; the resolver computes the distance of the innermost recording scope. PARTIAL: preservation of chain_matches by the whole evaluator is not '
+         'proved; whole programs are decided by the differential check (resolved vs unresolved runs, exhaustive binder chains to depth 5).' + DIFF,
+    technique='Coq proof (resolution agrees with dynamic lookup under the chain invariant) + differential correspondence'),
+ 'C08': dict(
+    text='Theorems (Coq, any state, any sub-evaluator returning literals unchanged): every rewrite rule of optimize (if/do/&&/||/+/* folding) is an equation of the evaluator: '
+         'same value, same type, same state; folded operands are literals only. PARTIAL: congruence inside arbitrary programs and float products are decided by the '
+         'differential check (with vs without the pass, exhaustive small trees).' + DIFF,
+    technique='Coq proof (each optimizer rule is an evaluator equation) + differential correspondence'),
  'C09': dict(
     text='Theorems (Coq, all widths/arity, no bound): bit/slice = floor(x/2^l) mod 2^(h-l+1), adjacent slices reassemble, '
          'n-ary + - * mod ** comparisons and bor/band/bxor of the evaluator compute the Z operations on whatever the operands '
          'evaluate to, convert/bin numeral+length, bits->sint two\'s complement, (signed s) reading, numeral round trips in any base '
          '2..36, signal text -> integer. Tie to code: extracted model vs implementation on generated expressions (literals and '
          'VCD signals up to 256 bits) plus an independent Python-integer oracle.',
-    design='DESIGN.md §6 C09',
     technique='Coq proof over executable Gallina model + differential correspondence (extracted OCaml) + integer oracle'),
+ 'C10': dict(
+    text='Theorems (Coq, numerals/strings of any length): decimal, 0x, 0b and signed literals read as their integer value in every position (top level, list, quote, @ offset, '
+         'slice bounds); string literals with every escape read as the intended text; the reader model is a total function. PARTIAL: totality of the Lark-based '
+         'implementation and general layout invariance are decided by the differential check on random, mutated and re-laid-out texts.' + DIFF,
+    technique='Coq proof (scannerless reader model, literal lemmas) + differential correspondence + Python int/float oracle'),
+ 'C11': dict(
+    text='Theorems (Coq): printed integers of any size and sign and printed strings over ASCII (with the escapes wal_str writes) read back as themselves in every position. '
+         'PARTIAL: the structural round trip of nested expressions and shorthand = long form for every operand are decided by the differential check on expressions '
+         'generated from the reader grammar (and by computation in the model on representative instances).' + DIFF,
+    technique='Coq proof (print/read round trip for ints and strings) + differential correspondence + read-print-read oracle'),
+ 'C12': dict(
+    text='Theorems (Coq): qualified names address exactly one trace; with one trace the qualified and plain name agree; stepping a named trace moves only it; the loaded-trace '
+         'count equals the number of traces over every load/unload sequence; a failed load changes nothing; unload removes exactly that trace.' + DIFF,
+    technique='Coq proof (container invariants by induction over operations) + differential correspondence'),
+ 'C13': dict(
+    text='Theorems (Coq, any body, any history of reads): a cache hit returns the value stored under the current timestamp; a miss evaluates the body at the current index and '
+         'stores it under that timestamp; soundness invariant: if every cached value is the body value of its time point, each read serves the value of the current time point '
+         'and keeps the invariant (any visit order); sample-at empties every cache; naming relative to captured scope/group; ~/# references fixed at definition; the defined '
+         'signal is listed. PARTIAL: that bodies of the fragment are functions of the time point is the premise, exercised by the differential check.' + DIFF,
+    technique='Coq proof (cache soundness invariant over all read histories) + differential correspondence + body-vs-signal oracle'),
+ 'C14': dict(
+    text='Theorems (Coq): first/second/last/rest/length/zip/list/+ on lists/slice/range compute head, tail, length, combine, concatenation, firstn/skipn after clamping, '
+         'the integer interval; arrays are a finite map with textual keys in insertion order after any seta/dela sequence; geta present-or-error. PARTIAL: map/fold/filter/'
+         'reverse/sort/partition and immutability of reachable lists are decided by the differential check against Python sequence operations.' + DIFF,
+    technique='Coq proof (list operator equations, finite-map laws) + differential correspondence + Python sequence oracle'),
+ 'C15': dict(
+    text='Theorems (Coq, operands as variables, macro bodies regenerated from the current std.wal each run): ~30 library forms (when, unless, cond, for, for/list, inc, dec, '
+         'count, always, timeframe, sum, append, ...) expand exactly to their documented defining expressions with operands unevaluated and placed as shown; gensym names are '
+         'fresh and increasing. PARTIAL: cond for closed clause heads; defun-defined helpers and user defmacro/macroexpand agreement by the differential check.' + DIFF,
+    technique='Coq proof by evaluation of the translated macro bodies on symbolic operands + differential correspondence'),
+ 'C16': dict(
+    text='Theorems (Coq): resolve is idempotent for every form and scope stack; the command-line pipeline (passes then Wal.eval running the passes again) equals the API pipeline on '
+         'every form whose processed version is a fixed point of expand and optimize; run_file is the sequence of Wal.eval calls; falsy forms skipped. PARTIAL: reader/printer/'
+         'pickle legs, process exit codes and expand-idempotence are decided by running the five real entry points as subprocesses and comparing them.' + DIFF,
+    technique='Coq proof (resolve idempotence, pipeline equality on pass fixed points) + subprocess path comparison + differential correspondence'),
+ 'C17': dict(
+    text='Theorems (Coq, induction over the whole evaluator, one lemma per operator): every completed evaluation leaves the current frame, scope, group and index stack as they '
+         'were and only extends the frame heap; the API entry (Wal.eval with keyword arguments) restores shadowed globals; Wal.run starts from a fresh state.' + DIFF,
+    technique='Coq proof (balanced-context invariant by induction on evaluator fuel) + differential correspondence'),
+ 'C18': dict(
+    text='Theorems (Coq): time cell with 0..9 fractional digits -> integer ns exactly, for numerals of any length (csv_time); decimal value inverts the numeral printer. '
+         'PARTIAL: the table walk (column order, time column position, header normalisation) is decided by the correspondence check '
+         '(extracted csv_parse vs Wal.load on generated tables) and the independent denotation oracle, not by a theorem.',
+    technique='Coq proof of the ns conversion + differential correspondence (extracted CSV parser) + denotation oracle'),
+ 'C19': dict(
+    text='Theorems (Coq): sample-at keeps one sample per distinct selected index in list order, builds lookup table and timestamps from the same list, resets the index and '
+         'drops virtual caches; the value at new index j is the original value at the j-th selected sample; a later sample-at refers to original indices; trim-trace sets '
+         'max to min(m, max). Navigation/@/scans on the resampled trace are the same operators (C02-C04 theorems are parametric in the trace).' + DIFF,
+    technique='Coq proof (resampling specification lemmas) + differential correspondence + re-indexing oracle'),
+ 'C20': dict(
+    text='Theorems (Coq): BEGIN/END/conditional classification is a partition keeping source order; the emitted program is (do defines BEGIN...), main loop (only with conditional '
+         'statements), END...; each collected variable defined once; the main loop (whenever #t (when (&& c...) action)...) visits every index from the current one to the last '
+         'once, ascending, statements in source order, and restores the index. PARTIAL: the Earley parser (precedence, associativity) is not modelled: decided by the '
+         'differential check against an AWK-style reference evaluation; -o by the reader round trip.' + DIFF,
+    technique='Coq proof (emit structure, main-loop refinement) + differential correspondence + AWK-style reference evaluator'),
 }
+for _k, _v in CHECKS.items():
+    _v.setdefault('design', 'DESIGN.md §6 ' + _k)
 
 NOT_YET = {}
 
